@@ -60,7 +60,8 @@ def build(cfg):
 
     ``p["call"]`` (optional) selects an unusual but legal calling form:
     'np' passes every integral parameter as ``numpy.int64``, 'kw' passes the
-    positional-or-keyword parameters by keyword, 'npkw' does both."""
+    positional-or-keyword parameters by keyword, 'npkw' does both, 'pos' /
+    'nppos' pass the four costs of the Revolve family positionally."""
     cs = lib()
     c, p, N = cfg["cls"], cfg["p"], cfg["N"]
     form = p.get("call") or ""
@@ -113,6 +114,12 @@ def build(cfg):
             # integral costs passed as Python ints, as the documentation's
             # examples do
             kw = {k: int(v) for k, v in kw.items()}
+        if "pos" in form and len(kw) == 4 and "kw" not in form:
+            # costs passed positionally in the documented order
+            tail = [kw[k] for k in ("uf", "ub", "wd", "rd")]
+            args = [i(N), i(p["s"])] + ([i(p["d"])] if c == "HRevolve"
+                                        else []) + tail
+            return getattr(cs, c)(*args)
         if c == "Revolve":
             return mk(cs.Revolve, ("max_n", "snapshots_in_ram"),
                       (N, p["s"]), **kw)
